@@ -290,6 +290,13 @@ def replay_sweep(a):
             "state_changed": bad[1]["state_diff"][:6]}
 
 
+def replay_opt(a):
+    lits = _lits_from_json(a["lits"])
+    r0 = fresh_run([a["op"]], lits, "0")[0]
+    r1 = fresh_run([a["op"]], lits, "0", optimize=True)[0]
+    return None if r0["result"] == r1["result"] else {"python": r0["short"], "python -O": r1["short"]}
+
+
 def replay_neighbour(a):
     lits = _lits_from_json(a["lits"])
     init_process(lits)
@@ -313,14 +320,15 @@ def run_sequence(names, lits):
     return [step(n) for n in names]
 
 
-def fresh_run(names, lits, hashseed="0", timeout=900, neighbour=None):
+def fresh_run(names, lits, hashseed="0", timeout=900, neighbour=None, optimize=False):
     """run the sequence in a freshly started interpreter; returns the list of step records.
     neighbour=(op, label): first perform that generated neighbour call of `op`"""
     env = dict(os.environ)
     env["PYTHONHASHSEED"] = hashseed
     env["PYTHONPATH"] = ROOT + (":" + env["PYTHONPATH"] if env.get("PYTHONPATH") else "")
     env["PYTHONDONTWRITEBYTECODE"] = "1"
-    p = subprocess.run([sys.executable, "-m", "mc.props.C20"], cwd=ROOT, env=env, capture_output=True, text=True,
+    env.pop("PYTHONOPTIMIZE", None)
+    p = subprocess.run([sys.executable] + (["-O"] if optimize else []) + ["-m", "mc.props.C20"], cwd=ROOT, env=env, capture_output=True, text=True,
                        input=json.dumps({"ops": names, "lits": _lits_to_json(lits), "neighbour": list(neighbour) if neighbour else None}),
                        timeout=timeout)
     if p.returncode != 0:
@@ -355,6 +363,19 @@ def task_fresh(a, env):
                 r.viol("C20:equal-arguments-unequal-results:%s" % name, ME + ":replay_seq", base,
                        "equal results for equal arguments", rec["short"])
         fresh[name] = recs[0]["result"]
+        # the same operation in an interpreter started with -O (assert statements stripped): same outcome
+        cost = OPSM.get(name)[0]
+        if cost <= 1 or name.split(":")[0] in ("KeyValidate", "Verify", "AggregateVerify", "FastAggregateVerify", "PopVerify", "Sign", "SkToPk", "PopProve"):
+            try:
+                orec = fresh_run([name], lits, seeds[0], optimize=True)[0]
+            except Exception:  # noqa: BLE001
+                orec = None
+            if orec is not None:
+                r.ev += 1
+                r.transitions += 1
+                if orec["result"] != recs[0]["result"]:
+                    r.viol("C20:result-depends-on-interpreter-optimisation-flag:%s" % name, ME + ":replay_opt", {"op": name, "lits": a["lits"]},
+                           recs[0]["short"], orec["short"], note="python -O")
         for k in recs[0].get("cache_like_changes", []):
             r.notes.setdefault("mutable_working_state_observed", {})[k] = 1
     r.notes["fresh"] = fresh
